@@ -8,10 +8,12 @@ def member(chunk, tier, seed):
 
 def run(tier='quick', seed=0):
     sp = matrixchecks.encoder_settings(tier, seed)
-    chunks = [sp[i:i + 3] for i in range(0, len(sp), 3)]
+    heavy = [x for x in sp if len(x) > 3]          # many-matrix settings: one per task, started first
+    light = [x for x in sp if len(x) <= 3]
+    chunks = [[x] for x in heavy] + [light[i:i + 3] for i in range(0, len(light), 3)]
     results = harness.run_pool('bounded.drivers.C10', 'member', chunks, tier, seed)
     return harness.aggregate(
         results,
         rule='one evaluation = one clause on one (encoder factory, imputer, settings, existence pattern, vector); non-trivial = distinct (factory, imputer, settings, existence pattern)',
-        bound='every factory of EAGER_ENCODERS x 4 imputers, EAGER_ENUM_ENCODERS x 2, LAZY_ENCODERS x 3 imputers, PATTERN_ENCODERS (constraint-violation imputers excluded: they return marked-invalid matrices by design) x 75 (quick) / 420 (thorough) connector settings up to 2x2 with exclusions x all existence patterns x every vector of prod[-1..n_opts_i] plus one too-long vector (spaces > 4000 vectors skipped)',
+        bound='every factory of EAGER_ENCODERS x 4 imputers, EAGER_ENUM_ENCODERS x 2, LAZY_ENCODERS x 3 imputers, PATTERN_ENCODERS (constraint-violation imputers excluded: they return marked-invalid matrices by design) x 75 (quick) / 420 (thorough) connector settings up to 2x2 with exclusions x all existence patterns, plus 18 (quick) / 25 (thorough) settings with many valid matrices (choose 1 of N for N = 3..13 / 3..17, and 7 / 10 wider shapes up to 2x3 / 3x2) with all nodes present x every vector of prod[-1..n_opts_i] plus one too-long vector (spaces > 4000 vectors skipped)',
         assumptions=['brute-force oracle as in C09'], exhaustive=False)
